@@ -67,9 +67,9 @@ def run(ctx):
     quick = ctx.tier == 'quick'
     ctx.rule = ('every chart of numqi.manifold named by the property (Sphere, Ball, Trace1PSD, SymmetricMatrix, DiscreteProbability, SpecialOrthogonal, Stiefel; every method, real and complex, every rank, '
                 'dim 2..%d): autograd Jacobian at the best conditioned of 12 standard-normal points (%d point sets per chart), rank = ChartRank(a) certified by SVD factors and re-verified by TLC in '
-                'integer arithmetic at scale %d; distinct by chart' % (3 if quick else 4, 1 if quick else 3, SCALE))
+                'integer arithmetic at scale %d; distinct by chart' % (3 if quick else 5, 1 if quick else 3, SCALE))
     ctx.assumptions = ['TLC/SANY correct', 'torch.autograd.functional.jacobian returns the differential of the functional map', 'rank with a gap criterion: k singular values certified >= floor > k*eps, n-k kernel directions with |J N| <= eps (1% of the largest entry of J)']
-    ctx.not_covered = ['dims above %d' % (3 if quick else 4), 'PositiveReal / OpenInterval (one-dimensional, monotone)', 'QuantumChannel / SeparableDensityMatrix (compositions of the charts above)', 'non-generic points']
+    ctx.not_covered = ['dims above %d' % (3 if quick else 5), 'PositiveReal / OpenInterval (one-dimensional, monotone)', 'QuantumChannel / SeparableDensityMatrix (compositions of the charts above)', 'non-generic points']
     ctx.tolerances = dict(scale=SCALE, eps=EPS / SCALE)
     r = tlc.run('manifold/MC_ChartArgs.tla', 'manifold/MC_ChartArgs_%s.cfg' % ('q' if quick else 't'), dump=True, timeout=600)
     ctx.add_model('MC_ChartArgs', r)
